@@ -330,6 +330,37 @@ def run(ck: Check) -> int:
         K.k5_loop(sr, drv, G, W, U, R, 25 if quick else 300, _case_cases, on_case, spec_for=_case_spec)
     ck.stream('K5-case-variant-starts', s_k5case)
 
+    # two (or more) globstars, a symlinked directory under an EARLIER one and real directories under a later one (added after seeded
+    # change C04i: `_fs_match` stopped leaving its loops at the first captured link, and a later group of real directories set the
+    # verdict back to True: `link/sub/deep/y.txt` accepted for `**/sub/**/*.txt`, which glob never returns)
+    def _two_spec(R_):
+        spec = [('d', 'dir', ''), ('d/sub', 'dir', ''), ('d/sub/deep', 'dir', ''), ('d/sub/deep/y.txt', 'file', ''), ('d/sub/x.txt', 'file', ''),
+                ('d/sub/deep/er', 'dir', ''), ('d/sub/deep/er/z.txt', 'file', ''), ('link', 'link', 'd'), ('top.txt', 'file', ''),
+                ('d/l2', 'link', 'sub'), ('e', 'dir', ''), ('e/sub', 'dir', ''), ('e/sub/w.txt', 'file', '')]
+        keep = [e for e in spec if R_.random() < 0.95]
+        have = {e[0] for e in keep}
+        return [e for e in keep if '/' not in e[0] or e[0].rsplit('/', 1)[0] in have]
+
+    TWO_PATS = ['**/sub/**/*.txt', '**/sub/**', '**/deep/**', '**/sub/**/deep/*', '**/d/**/deep/**', '**/sub/**/er/*', '*/sub/**', '**/sub/*/**/*.txt',
+                '**/**/sub/**', 'link/**/deep/**', '**/l2/**', '**/deep/**/z.txt', '***/sub/**/*.txt', '**/sub/***/*.txt']
+
+    def _two_cases(R_, t):
+        out = []
+        for _ in range(8 if quick else 16):
+            p = R_.choice(TWO_PATS)
+            fl = G.GLOBSTAR | (G.GLOBSTARLONG if '***' in p else 0)
+            for nm, pr in (('MARK', 0.15), ('EXTGLOB', 0.3), ('DOTGLOB', 0.2)):
+                if R_.random() < pr:
+                    fl |= getattr(G, nm)
+            out.append(K.Case(p, fl, None, R_.choice(['root_dir', 'root_dir', 'cwd', 'dir_fd'])))
+        return out
+
+    def s_k5two(sr):
+        sr.note = 'K5 + the C04 comparison on trees with a symlinked directory above real directories, patterns with two or more globstars'
+        K.k5_loop(sr, drv, G, W, U, R, 20 if quick else 300, _two_cases, on_case, spec_for=_two_spec)
+    if drv:
+        ck.stream('K5-two-globstars-link-first', s_k5two)
+
     def s_caps(sr):
         import streams
         import gen
